@@ -5,7 +5,7 @@ import CalVerif.Model.Reader
     the state in force before it and the symbolic result. The harness evaluates the symbolic result
     with freshly opened readers and compares it with what the long-lived reader returned.
 
-    request: `hist <op>;<op>;…`   op = `H,d` | `H,<n>` | `R,<hexname>` | `RR,<hexname>` | `RA,<n>` | `W` | `F,<hexname>`
+    request: `hist <eager|lazy> sheets=<hexname>,… <op>;<op>;…`   op = `H,d` | `H,<n>` | `R,<hexname>` | `RR,<hexname>` | `RA,<n>` | `W` | `F,<hexname>`
              | `MC,<hexname>` | `LM` | `MR` | `MS,<hexname>` | `LT` | `TN` | `TB,<hexname>` | `V` | `SN` | `MD`
              preceded by `sheets=<hexname>,<hexname>…` as first field
     reply  : `<hdr>,<mergedLoaded>,<tablesLoaded>,<symbolic result>;…` -/
@@ -15,8 +15,8 @@ def showHdr : Hdr → String
   | .firstNonEmpty => "d"
   | .row n => toString n
 
-def symFile (sheets : List String) : FileSem :=
-  { sheets := sheets,
+def symFile (eager : Bool) (sheets : List String) : FileSem :=
+  { eager := eager, sheets := sheets,
     rangeRef := fun n h => s!"rangeRef({n}|{showHdr h})",
     toOwned := fun o => s!"own({o})",
     formula := fun n => s!"formula({n})",
@@ -60,10 +60,10 @@ def runSym (F : FileSem) : State → List Op → List String
 
 def handle (line : String) : String :=
   match Wire.words line with
-  | ["hist", sheets, ops] =>
+  | ["hist", kind, sheets, ops] =>
     let names := if sheets = "sheets=" then [] else (sheets.drop 7).toString.splitOn ","
     match (ops.splitOn ";").mapM parseOp with
-    | some l => ";".intercalate (runSym (symFile names) {} l)
+    | some l => ";".intercalate (runSym (symFile (kind = "eager") names) {} l)
     | none => "bad-op"
   | _ => "bad-op"
 
